@@ -101,6 +101,8 @@ def check_pop_and_cleanups(chk, ix):
                  "sys.exc_info": lambda it, st, a, k, n: [(st, "val", ("type", st.ghost.get("raised", ())[-1:], "tb"))],
                  "six.reraise": lambda it, st, a, k, n: [(st, "raise", Exc("RuntimeError", None, "re-raised %s" % (a[1] if len(a) > 1 else a,)))]}
         it = Interp(ix, stubs=stubs, name="Context._do_cleanups")
+        it.int_sat = 1000       # three concrete cleanups: indices and lengths are exact numbers
+        it.list_cap = 100
         st = State()
         st.frames = []
         cl = st.alloc(HObj("list", kind="list", items=[mk("c1"), mk("c2"), mk("c3")], label="@cleanups"))
